@@ -4,7 +4,7 @@ from collections import defaultdict
 from decimal import Decimal
 from typing import Any, NamedTuple, Optional, Union, cast
 
-from ._errors import CompatibilityError
+from ._errors import CompatibilityError, DecodeValidationError
 from ._parse import parse_model
 from ._types import (
     JobParameterDefinition,
@@ -197,10 +197,13 @@ def merge_job_parameter_definitions_for_one(
     if errors:
         raise CompatibilityError("\n".join(errors))
 
-    return cast(
-        JobParameterDefinition,
-        parse_model(model=params[0].definition.__class__, obj=merged_properties),
-    )
+    try:
+        return cast(
+            JobParameterDefinition,
+            parse_model(model=params[0].definition.__class__, obj=merged_properties),
+        )
+    except DecodeValidationError as e:
+        raise CompatibilityError(str(e))
 
 
 def _merge_allowed_values(
